@@ -525,7 +525,7 @@ def sum_extensionality(hyps, a, b):
         goal = z3.And(a.arg(1) == b.arg(1), a.arg(2) == b.arg(2), z3.Select(a.arg(0), k) == z3.Select(b.arg(0), k))
         qf = [h for h in hyps if not has_quantifier(h)]
         defs = relevant_defs(qf + rng + [goal])
-        gi = ground_def_instances(qf + rng + [goal], defs) if defs else []
+        gi = ground_def_instances(qf + rng + [goal], defs, rounds=8) if defs else []      # nested elementwise definitions: one round per level
         s = z3.Solver()
         s.set("timeout", 700)
         s.add(*qf)
@@ -569,6 +569,8 @@ def sum_extensionality(hyps, a, b):
                     res = (a == b)
     except z3.Z3Exception:
         res = None
+    if os.environ.get("KVC_TRACE3"):
+        print("        sum_extensionality %s: %s" % ("proved" if res is not None else "NOT proved", (a == b).sexpr()[:200].replace("\n", " ")), flush=True)
     _ext_cache[key] = res
     return res
 
@@ -1986,6 +1988,12 @@ class Exec:
             ok = isinstance(va, self.SCALAR) and isinstance(vb, self.SCALAR) or \
                 (isinstance(va, Tup) and isinstance(vb, Tup) and len(va.items) == len(vb.items)
                  and all(isinstance(i, self.SCALAR) for i in va.items + vb.items))
+            if not ok and self.ctx.contract.get("merge_seqs") and isinstance(va, Seq) and isinstance(vb, Seq) \
+                    and str(va.esh) == str(vb.esh) and va.kind == vb.kind and va.root == vb.root and len(va.arrs) == len(vb.arrs):
+                # opt-in: sequences of the same shape merge to ite-arrays (one path instead of two after `if c: xs.append(..)`)
+                env[k] = Seq(z3.If(c, va.n, vb.n), z3.If(c, va.off, vb.off), [z3.If(c, x, y) for x, y in zip(va.arrs, vb.arrs)],
+                             va.esh, va.kind, va.root)
+                continue
             if not ok:
                 return None
             try:
